@@ -373,7 +373,7 @@ def subchecks(tier, seed):
             for D in ((2, 3) if fam.startswith('bingham') else (2, 3, 5)):
                 for N in (D + 2, 12):
                     for lead in ((), (2,)):
-                        for kind in ('generic',) + tuple(kinds) + (('offset4', 'offset6') if fam.startswith('gauss')
+                        for kind in ('generic',) + tuple(kinds) + (('offset4', 'offset6', 'offset8') if fam.startswith('gauss')
                                                                    else ()):
                             for salk in ('none', 'graded', 'one_zero'):
                                 for its in ((1, 10) if fam == 'cacg' else (1,)):
